@@ -1,5 +1,6 @@
 import BSModel.Proofs.EncodingIn
 import BSModel.Proofs.EncodingDecl
+import BSModel.Proofs.EncodingRx
 import BSModel.Gen.EncodingIn
 /-! # C07 — encoding detection follows the documented precedence and decodes exactly
 
@@ -408,18 +409,124 @@ theorem declared_reported (C : Codecs) (a : Args) (b : Bytes) :
   · rw [hb]
     cases h : a.isHtml <;> rfl
 
-/-! ### the declaration matcher on the shapes the property names (PARTIAL)
+/-! ### the declaration regexes
 
-Full statement wanted: `findDeclared` = group 1 of Python's `re` search of the two patterns
-(`xml_encoding`, `html_meta`, bytes versions, `re.I`, the two `endpos` windows) for EVERY byte
-string. That needs a semantics of the regex engine; `findDeclared` is a hand-written matcher following
-the engine's backtracking order and is tied to the real regexes by correspondence only (token soups,
-mutated declarations, window boundaries). Proved here: what it returns on well-formed declarations. -/
+`Rx.findDeclaredRx` is the code-mirror of `find_declared_encoding`: Python's `re` search (module
+`Model/EncodingRx.lean`: backtracking matcher for the fragment of the regex language the two patterns
+use) over the patterns GENERATED from the live `xml_encoding` / `html_meta` sources, with the two
+`endpos` windows. `findDeclared` (used by `dammit`) is the hand-written matcher. They are equal on
+every input (`declared_regex_refinement`), so every statement below holds of the regex mirror.
+What remains outside Lean: that `Rx.search` is what CPython's `re` computes on this fragment — tied
+by the `rx` correspondence stream (random patterns of the fragment, bytes and str, versus `re`). -/
+
+/-- REFINEMENT. `find_declared_encoding` as a regex search over the generated patterns (bytes
+    flavour) is the hand-written matcher used by the model of UnicodeDammit — for EVERY byte string. -/
+theorem declared_regex_refinement (markup : Bytes) (isHtml : Bool) :
+    Rx.findDeclaredRx false markup isHtml false = findDeclared markup isHtml :=
+  Rx.findDeclaredRx_eq markup isHtml
+
+/-- The generated pattern data (from `re._parser` on the live sources) is what the proofs are about:
+    `^\s*<\?.*encoding=['"](.*?)['"].*\?>` and `<\s*meta[^>]+charset\s*=\s*["']?([^>]*?)[ /;'">]`. -/
+theorem patterns_are_the_live_ones :
+    (Gen.c07XmlAnchored = true ∧ Gen.c07XmlAtoms = Rx.xmlAtomsH) ∧
+    (Gen.c07HtmlAnchored = false ∧ Gen.c07HtmlAtoms = Rx.htmlAtomsH) :=
+  ⟨Rx.gen_xml_eq, Rx.gen_html_eq⟩
+
+/-- How the two flavours differ on ASCII (whole generated tables, kernel-decided): the str `\s` is the
+    bytes `\s` plus the four separators U+001C..U+001F; the case folding of the patterns' literals is
+    the same (the str flavour's extra matches — `ſ` for `s`, `ı`/`İ` for `i` — are all non-ASCII). -/
+theorem str_flavor_vs_bytes_flavor_on_ascii :
+    (List.range 128).all (fun x => Rx.strFlavor.space x == (Rx.bytesFlavor.space x || (28 ≤ x && x ≤ 31))) = true ∧
+    (Gen.c07CiTable.all fun e => (List.range 128).all fun x =>
+      Rx.strFlavor.ci e.1 x == Rx.bytesFlavor.ci e.1 x) = true := by
+  constructor <;> decide +kernel
+
+/-- The result does not depend on anything after the search window: two documents of the same length
+    that agree on the first `max(2048, len/20)` characters declare the same encoding — both flavours. -/
+theorem declared_window_independent (isStr : Bool) (m1 m2 : List Nat) (isHtml : Bool)
+    (hlen : m1.length = m2.length)
+    (hw : m1.take (max 2048 (m1.length / 20)) = m2.take (max 2048 (m1.length / 20))) :
+    Rx.findDeclaredRx isStr m1 isHtml false = Rx.findDeclaredRx isStr m2 isHtml false := by
+  have h1024 : m1.take 1024 = m2.take 1024 := by
+    have h1 : m1.take 1024 = (m1.take (max 2048 (m1.length / 20))).take 1024 := by
+      rw [List.take_take]; congr 1; omega
+    have h2 : m2.take 1024 = (m2.take (max 2048 (m1.length / 20))).take 1024 := by
+      rw [List.take_take]; congr 1; omega
+    rw [h1, h2, hw]
+  unfold Rx.findDeclaredRx Rx.search
+  simp only [Bool.false_eq_true, if_false, h1024, ← hlen, hw]
+
+/-- … in particular for the matcher inside `dammit`. -/
+theorem declared_window_independent_bytes (m1 m2 : Bytes) (isHtml : Bool) (hlen : m1.length = m2.length)
+    (hw : m1.take (max 2048 (m1.length / 20)) = m2.take (max 2048 (m1.length / 20))) :
+    findDeclared m1 isHtml = findDeclared m2 isHtml := by
+  rw [← declared_regex_refinement, ← declared_regex_refinement]
+  exact declared_window_independent false m1 m2 isHtml hlen hw
+
+example : findDeclared (ofS "<meta charset=x>" ++ List.replicate 3000 120 ++ ofS "<meta charset=a>") true
+    = findDeclared (ofS "<meta charset=x>" ++ List.replicate 3000 120 ++ ofS "<meta charset=b>") true := by
+  apply declared_window_independent_bytes
+  · decide +kernel
+  · decide +kernel
+
+/-- Nothing is found when the markers are absent: no `<?` at the start (after white space) of the
+    first 1024 bytes — or no `encoding=` there — and no `<`+`meta` — or no `charset` — in the HTML window. -/
+theorem nothing_declared_without_markers (markup : Bytes) (isHtml : Bool)
+    (hxml : (∀ rest, (markup.take 1024).dropWhile isSpace ≠ 60 :: 63 :: rest) ∨
+            containsCI litEncodingEq (markup.take 1024) = false)
+    (hhtml : hasMetaOpen (markup.take (max 2048 (markup.length / 20))) = false ∨
+             containsCI litCharset (markup.take (max 2048 (markup.length / 20))) = false) :
+    findDeclared markup isHtml = none ∧ Rx.findDeclaredRx false markup isHtml false = none := by
+  have hx : xmlMatch markup = none := by
+    unfold xmlMatch
+    rcases hxml with h | h
+    · split
+      · rename_i rest heq; exact absurd heq (h rest)
+      · rfl
+    · split
+      · rename_i rest heq
+        apply lastEncoding_none_of_no_encoding
+        have h1 := containsCI_dropWhile litEncodingEq _ isSpace h
+        rw [heq] at h1
+        have h2 : containsCI litEncodingEq rest = false := by
+          simp only [containsCI, Bool.or_eq_false_iff] at h1; exact h1.2.2
+        -- the line is a prefix of `rest`
+        clear heq h1 h
+        induction rest with
+        | nil => simpa using h2
+        | cons c t ih =>
+          simp only [containsCI, Bool.or_eq_false_iff] at h2
+          simp only [List.takeWhile_cons]
+          split
+          · simp only [containsCI, Bool.or_eq_false_iff]
+            refine ⟨?_, ih h2.2⟩
+            have := Rx.startsCI_line litEncodingEq (by decide) (c :: t)
+            unfold Rx.line at this
+            simp only [List.takeWhile_cons] at this
+            rename_i hc
+            simp only [hc, if_true] at this
+            rw [this]; exact h2.1
+          · rfl
+      · rfl
+  have hh : htmlSearch (markup.take (max 2048 (markup.length / 20))) = none := by
+    rcases hhtml with h | h
+    · exact htmlSearch_none_of_no_meta _ h
+    · exact htmlSearch_none_of_no_charset _ h
+  have : findDeclared markup isHtml = none := by
+    unfold findDeclared
+    simp only [hx, hh]
+    cases isHtml <;> rfl
+  exact ⟨this, by rw [declared_regex_refinement]; exact this⟩
+
+example : findDeclared (ofS "<html><head><title>charset and meta, but no tag</title></head>") true = none :=
+  (nothing_declared_without_markers _ true (Or.inr (by decide)) (Or.inl (by decide))).1
+
+/-! #### well-formed declarations inside the window are found -/
 
 /-- `<?xml … encoding="NAME"?>` at the start (after optional white space), within the first 1024
     bytes, the line ending right after it or continuing without `=`: the declared encoding is NAME,
     lower-cased — for XML and for HTML documents alike. -/
-theorem declared_of_wellformed_xml_partial (ws pre name restLine tail : Bytes) (q1 q2 : Nat) (isHtml : Bool)
+theorem declared_of_wellformed_xml (ws pre name restLine tail : Bytes) (q1 q2 : Nat) (isHtml : Bool)
     (hws : ∀ c ∈ ws, isSpace c = true) (hpre : ∀ c ∈ pre, c ≠ 10)
     (hq1 : isQuote q1 = true) (hq2 : isQuote q2 = true) (hne : name ≠ [])
     (hn : ∀ c ∈ name, isQuote c = false ∧ c ≠ 61 ∧ c ≠ 10)
@@ -439,7 +546,7 @@ example : findDeclared (ofS "<?xml version=\"1.0\" encoding=\"KOI8-R\"?>\n<a/>")
     `<meta http-equiv=… content="text/html; charset=NAME">`): no XML declaration in front, every
     earlier `<` opens something that is visibly not `<meta`, the tag lies within the first 2048 bytes,
     NAME has no closing-class character / white space / `=`, and nothing with `=` follows before `>`. -/
-theorem declared_of_wellformed_meta_partial (pre mid qs name close rest : Bytes) (m0 : Nat)
+theorem declared_of_wellformed_meta (pre mid qs name close rest : Bytes) (m0 : Nat)
     (hxml : xmlMatch (pre ++ 60 :: (litMeta ++ m0 :: (mid ++ (litCharset ++ 61 :: (qs ++ (name ++ (close ++ [62])))))) ++ rest) = none)
     (hpre : tagsNotMeta pre = true)
     (hm0 : m0 ≠ 62) (hmid : ∀ c ∈ mid, c ≠ 62)
@@ -475,7 +582,7 @@ example : findDeclared (ofS "<html><head><meta charset='x-sjis' /></head>") fals
 
 /-- so declared_html_encoding reports a well-formed `<meta>` declaration whatever the arguments,
     whatever encoding wins and whatever the codecs do (false of the unrepaired code) -/
-theorem declared_html_encoding_of_meta_partial (C : Codecs) (a : Args) (doc name : Bytes) (ha : a.isHtml = true)
+theorem declared_html_encoding_of_meta (C : Codecs) (a : Args) (doc name : Bytes) (ha : a.isHtml = true)
     (hbom : stripBom doc = (doc, none)) (hd : findDeclared doc true = some (lower (asciiReplace name))) :
     (dammit C a (.bytes doc)).declaredHtml = some (lower (asciiReplace name)) := by
   rw [declared_reported, ha, hbom]
@@ -509,14 +616,14 @@ example : True := by
   trivial
 -- … and those of the two declaration theorems
 example : True := by
-  have := declared_of_wellformed_meta_partial (ofS "<html><head>") [] [34] (ofS "utf-8") [34] (ofS "</head>") 32
+  have := declared_of_wellformed_meta (ofS "<html><head>") [] [34] (ofS "utf-8") [34] (ofS "</head>") 32
     (by decide) (by decide) (by decide) (by decide) (Or.inr ⟨34, rfl, by decide⟩) (by decide) (by decide) (by decide)
     (Or.inr ⟨34, [], rfl, by decide⟩) (by decide)
-  have := declared_of_wellformed_meta_partial (ofS "<!DOCTYPE html>\n<head><title>t</title>") (ofS "http-equiv=\"Content-Type\" content=\"text/html; ")
+  have := declared_of_wellformed_meta (ofS "<!DOCTYPE html>\n<head><title>t</title>") (ofS "http-equiv=\"Content-Type\" content=\"text/html; ")
     [] (ofS "KOI8-R") [34] (ofS "</head>") 32
     (by decide) (by decide) (by decide) (by decide) (Or.inl rfl) (by decide) (by decide) (by decide)
     (Or.inr ⟨34, [], rfl, by decide⟩) (by decide)
-  have := declared_of_wellformed_xml_partial [10, 32] (ofS "xml version=\"1.0\" ") (ofS "Big5") (ofS " ") (ofS "\n<a/>") 34 34 false
+  have := declared_of_wellformed_xml [10, 32] (ofS "xml version=\"1.0\" ") (ofS "Big5") (ofS " ") (ofS "\n<a/>") 34 34 false
     (by decide) (by decide) (by decide) (by decide) (by decide) (by decide) (by decide) (Or.inr ⟨_, rfl⟩) (by decide)
   trivial
 
